@@ -34,7 +34,7 @@ import pandas as pd
 import toolz as tlz
 from scipy.sparse import csc_array, csr_array
 
-from . import xrdtypes
+from . import _verif, xrdtypes
 from .aggregate_flox import _prepare_for_flox
 from .aggregations import (
     AGGREGATIONS,
@@ -2898,6 +2898,19 @@ def groupby_reduce(
         if TYPE_CHECKING:
             assert isinstance(reindex, ReindexStrategy)
             assert method is not None
+
+        _verif.emit(
+            "plan",
+            func=agg.name,
+            method=method,
+            preferred=preferred_method,
+            engine=kwargs["engine"],
+            reindex_blockwise=reindex.blockwise,
+            nax=nax,
+            by_ndim=by_.ndim,
+            any_by_dask=any_by_dask,
+            ncohorts=len(chunks_cohorts),
+        )
 
         # TODO: just do this in dask_groupby_agg
         # we always need some fill_value (see above) so choose the default if needed
